@@ -13,7 +13,7 @@ import (
 // World `pardo` (C13): parallel.Do / DoContext / Map / MapContext with scripted callbacks.
 
 func init() {
-	Register(&World{Name: "pardo", Props: []string{"C13"}, Concurrent: true, Timed: true, MaxSteps: 6000, Run: pardoWorld})
+	Register(&World{Name: "pardo", Episodes: true, Props: []string{"C13"}, Concurrent: true, Timed: true, MaxSteps: 6000, Run: pardoWorld})
 	ExpectedProbes["pardo"] = []string{"sequential-fast-path", "parallel-path", "failure-in-last-index", "two-failures", "caller-cancel-midflight", "waiter-released-by-failure", "parallelism-from-gomaxprocs", "n-zero"}
 }
 
